@@ -438,6 +438,8 @@ func (g *cgen) leaf(t *gen.TD) *gen.Tree {
 		return gen.Str(rapid.SampledFrom(cfgRegexps).Draw(g.t, "re"))
 	case "unpstr":
 		return g.pick(gen.Str("hello"), gen.Str(""), gen.Str("x y"), gen.Int(5))
+	case "unpint":
+		return g.pick(gen.Int(5), gen.Int(-3), gen.Uint(8), gen.Int(0))
 	}
 	panic("c13: no setting for leaf kind " + base)
 }
@@ -788,6 +790,8 @@ func badValue(t *rapid.T, td *gen.TD) *gen.Tree {
 		return pick(gen.Str("("), gen.Str("[a"), obj, gen.List(gen.Str("a"), gen.Str("b")))
 	case "unpstr":
 		return gen.Str("bad")
+	case "unpint":
+		return gen.Int(13)
 	}
 	panic("c13: no bad value for " + base)
 }
@@ -872,6 +876,18 @@ func inject(t *rapid.T, c *Case, st *Step, v *view, absent bool, spare map[int]b
 	case s.t.Kind == kUnpStr:
 		f.Kind = "unpacker"
 		set(gen.Str("bad"))
+	case s.t.Kind == kUnpInt:
+		// (an IntUnpacker that has overwritten its receiver before it fails)
+		f.Kind = "unpacker"
+		if rapid.IntRange(0, 2).Draw(t, "unpintconv") == 0 {
+			set(gen.Str("zz"))
+		} else {
+			set(gen.Int(13))
+		}
+	case (s.owner == kCfgUnp && s.fname == "Hi") || (s.owner == kAnyUnp && s.fname == "N"):
+		// the type's own Unpack has stored every setting of the object in its receiver when it fails
+		f.Kind = "unpack-after-store"
+		set(gen.Int(13))
 	case s.fd != nil && s.t.Shape() == s.t && isNumericBase(leafBase(s.t)) && rapid.IntRange(0, 2).Draw(t, "vt") == 0 && setValidate(s.fd, "nonzero"):
 		f.Kind = "val-tag"
 		set(gen.Int(0))
